@@ -1,0 +1,20 @@
+//! Verification hook, compiled only with the off-by-default cargo feature `verif_hooks`.
+//!
+//! When the environment variable `BITBYBIT_VERIF_DUMP_DIR` is set, every token stream that
+//! `bitfield`/`bitenum` is about to return is also written to
+//! `<dir>/<pid>-<n>-<kind>-<Name>.rs`. The emitted tokens themselves are never changed.
+
+use std::sync::atomic::{AtomicUsize, Ordering};
+
+static COUNTER: AtomicUsize = AtomicUsize::new(0);
+
+/// Writes `tokens` to the dump directory (if one is configured). Always returns `false`, so it can
+/// be used as a match guard that never takes the arm.
+pub(crate) fn dump(kind: &str, name: &str, tokens: &str) -> bool {
+    if let Some(dir) = std::env::var_os("BITBYBIT_VERIF_DUMP_DIR") {
+        let n = COUNTER.fetch_add(1, Ordering::Relaxed);
+        let file = format!("{}-{:06}-{}-{}.rs", std::process::id(), n, kind, name);
+        let _ = std::fs::write(std::path::Path::new(&dir).join(file), tokens);
+    }
+    false
+}
